@@ -23,38 +23,38 @@ ScnBu == [xs |-> <<A, A, B>>,
           fixed |-> <<Fx("fuel", 1, 1, 1, 1, 1, 2, 400), Fx("fuel", 2, 2, 2, 1, 0, 1, 400), Fx("fuel", 1, 1, 0, 2, 1, 1, 400)>>,
           choices |-> <<{<<b, 600, 1>> : b \in {0, 3, 4, 10, 11}}, {<<b, 500, 1>> : b \in {0, 4}}, {<<4, 700, 1>>}>>,
           bub |-> <<3, 10>>, tb |-> <<>>, grep |-> "Average", gfilter |-> "fuel", ctl |-> {},
-          burn |-> {<<1, 4>>, <<1, 11>>, <<2, 11>>}, heat |-> {}, flux |-> {}, lists |-> {}, acts |-> BaseActs]
+          burn |-> {<<1, 4>>, <<1, 11>>, <<2, 11>>}, heat |-> {}, flux |-> {}, lists |-> {}, deeper |-> 0, acts |-> BaseActs]
 \* temperature groups (bounds 450 and 600, never hit exactly) times two burnup groups
 ScnTemp == [xs |-> <<A, A, A>>,
             fixed |-> <<Fx("fuel", 1, 1, 1, 1, 0, 1, 400), Fx("fuel", 2, 1, 1, 1, 1, 1, 400), Fx("reflector", 1, 0, 0, 1, 1, 1, 500)>>,
             choices |-> <<{<<b, t, 1>> : b \in {0, 4}, t \in {400, 500, 700}}, {<<0, t, 1>> : t \in {400, 800}}, {<<0, 500, 1>>}>>,
             bub |-> <<3>>, tb |-> <<450, 600>>, grep |-> "Average", gfilter |-> "fuel", ctl |-> {},
-            burn |-> {<<2, 4>>}, heat |-> {<<1, 700>>, <<2, 400>>, <<3, 300>>}, flux |-> {}, lists |-> {}, acts |-> BaseActs \cup {"UpdCore", "UpdGrp"}]
+            burn |-> {<<2, 4>>}, heat |-> {<<1, 700>>, <<2, 400>>, <<3, 300>>}, flux |-> {}, lists |-> {}, deeper |-> 0, acts |-> BaseActs \cup {"UpdCore", "UpdGrp"}]
 \* groups without an eligible member: re-labelled to a represented group of their type, or left alone
 ScnUnrep == [xs |-> <<A, A, A, B>>,
              fixed |-> <<Fx("fuel", 1, 1, 1, 1, 1, 2, 400), Fx("reflector", 2, 1, 2, 1, 0, 1, 400), Fx("reflector", 1, 2, 0, 2, 1, 1, 400), Fx("reflector", 1, 0, 1, 1, 1, 1, 400)>>,
              choices |-> <<{<<b, 600, 1>> : b \in {0, 4}}, {<<b, 500, 1>> : b \in {0, 4, 11}}, {<<11, 500, 1>>}, {<<0, 500, 1>>}>>,
              bub |-> <<3, 10>>, tb |-> <<>>, grep |-> "Average", gfilter |-> "fuel", ctl |-> {},
-             burn |-> {<<1, 11>>, <<2, 11>>}, heat |-> {}, flux |-> {}, lists |-> {}, acts |-> BaseActs]
+             burn |-> {<<1, 11>>, <<2, 11>>}, heat |-> {}, flux |-> {}, lists |-> {}, deeper |-> 0, acts |-> BaseActs]
 \* per-key settings and their inheritance (AA -> AB; BB does not reach BA), flux weighting with a refusal, by component
 ScnCtl == [xs |-> <<A, A, B, B>>,
            fixed |-> <<Fx("fuel", 1, 1, 1, 1, 1, 2, 400), Fx("reflector", 2, 2, 2, 1, 0, 1, 500), Fx("fuel", 1, 1, 0, 2, 1, 1, 400), Fx("fuel", 2, 2, 2, 1, 1, 2, 600)>>,
            choices |-> <<{<<b, 600, 1>> : b \in {0, 4}}, {<<b, 500, 1>> : b \in {0, 4}}, {<<b, 700, w>> : b \in {0, 4}, w \in {0, 2}}, {<<4, 800, 2>>}>>,
            bub |-> <<3>>, tb |-> <<>>, grep |-> "Average", gfilter |-> "fuel",
            ctl |-> {Ctl(1, 1, "Median", "all", FALSE), Ctl(2, 2, "FluxWeightedAverage", "fuel", TRUE)},
-           burn |-> {<<3, 4>>}, heat |-> {}, flux |-> {<<3, 0>>, <<3, 2>>, <<4, 0>>}, lists |-> {}, acts |-> BaseActs]
+           burn |-> {<<3, 4>>}, heat |-> {}, flux |-> {<<3, 0>>, <<3, 2>>, <<4, 0>>}, lists |-> {}, deeper |-> 0, acts |-> BaseActs]
 \* every block type is eligible (disableBlockTypeExclusionInXsGeneration), median representation
 ScnAll == [xs |-> <<A, A, A>>,
            fixed |-> <<Fx("fuel", 1, 1, 1, 1, 1, 2, 400), Fx("reflector", 2, 1, 2, 1, 0, 1, 400), Fx("control", 1, 2, 0, 2, 1, 1, 400)>>,
            choices |-> <<{<<b, 600, 1>> : b \in {0, 2}}, {<<b, 500, 1>> : b \in {0, 1, 4}}, {<<b, 500, 1>> : b \in {1, 3}}>>,
            bub |-> <<3>>, tb |-> <<>>, grep |-> "Median", gfilter |-> "all", ctl |-> {},
-           burn |-> {<<1, 4>>}, heat |-> {}, flux |-> {}, lists |-> {}, acts |-> BaseActs]
+           burn |-> {<<1, 4>>}, heat |-> {}, flux |-> {}, lists |-> {}, deeper |-> 0, acts |-> {"Make", "Create"}]
 \* two-letter types, a single environment group; type "AB" has no eligible block
 ScnTwo == [xs |-> <<<<1, 2>>, <<1, 3>>, <<1, 3>>>>,
            fixed |-> <<Fx("reflector", 1, 1, 1, 1, 1, 2, 400), Fx("fuel", 2, 2, 2, 1, 0, 1, 400), Fx("fuel", 1, 1, 0, 2, 1, 1, 400)>>,
            choices |-> <<{<<0, 600, 1>>}, {<<b, 500, 1>> : b \in {0, 4}}, {<<4, 700, 1>>}>>,
            bub |-> <<>>, tb |-> <<>>, grep |-> "Average", gfilter |-> "fuel", ctl |-> {},
-           burn |-> {<<2, 11>>}, heat |-> {}, flux |-> {}, lists |-> {}, acts |-> BaseActs]
+           burn |-> {<<2, 11>>}, heat |-> {}, flux |-> {}, lists |-> {}, deeper |-> 0, acts |-> BaseActs]
 
 \* temperature groups with a type (B) whose settings name no temperature isotope, listed after hot and cold blocks of type A;
 \* type C inherits "no isotope" from the settings of CB only above group B; a 1-D cylinder type (D) with an ineligible block first
@@ -65,7 +65,7 @@ ScnIso == [xs |-> <<A, B, A, B, C, <<4>>, <<4>>, <<4>>>>,
                          {<<0, 700, 1>>}, {<<0, 700, 1>>}, {<<2, 400, 1>>}, {<<4, 700, 1>>}>>,
            bub |-> <<3>>, tb |-> <<450, 600>>, grep |-> "Average", gfilter |-> "fuel",
            ctl |-> {CtlIso(2, 1, "Average", "fuel", FALSE, 0), CtlIso(3, 2, "Median", "fuel", FALSE, 0), CtlIso(4, 1, "ComponentAverage1DCylinder", "fuel", FALSE, 0)},
-           burn |-> {<<5, 4>>}, heat |-> {<<1, 700>>, <<1, 300>>}, flux |-> {}, lists |-> {}, acts |-> BaseActs]
+           burn |-> {<<5, 4>>}, heat |-> {<<1, 700>>, <<1, 300>>}, flux |-> {}, lists |-> {}, deeper |-> 0, acts |-> {"Make", "Create"}]
 
 \* the temperature-coefficient workflow: representatives, then createRepresentativeBlocksUsingExistingBlocks on lists that span two
 \* types and contain an ineligible block (a hot reflector of type A), the new collections filled and passed to
@@ -73,15 +73,15 @@ ScnIso == [xs |-> <<A, B, A, B, C, <<4>>, <<4>>, <<4>>>>,
 ScnExist == [xs |-> <<A, A, B, B, A>>,
              fixed |-> <<Fx("fuel", 1, 1, 1, 1, 1, 2, 400), Fx("reflector", 2, 1, 2, 1, 1, 1, 400), Fx("fuel", 1, 1, 0, 2, 1, 1, 400), Fx("fuel", 2, 2, 2, 1, 1, 2, 500),
                          Fx("fuel", 3, 1, 2, 1, 0, 1, 300)>>,
-             choices |-> <<{<<0, 600, 1>>}, {<<0, 900, 1>>}, {<<0, 700, 1>>}, {<<b, 800, 1>> : b \in {0, 5}}, {<<0, 500, 1>>}>>,
+             choices |-> <<{<<0, 600, 1>>}, {<<0, 900, 1>>}, {<<0, 700, 1>>}, {<<5, 800, 1>>}, {<<0, 500, 1>>}>>,
              bub |-> <<3>>, tb |-> <<>>, grep |-> "Average", gfilter |-> "fuel", ctl |-> {Ctl(2, 1, "Median", "fuel", FALSE)},
-             burn |-> {}, heat |-> {<<1, 900>>, <<3, 900>>}, flux |-> {},
-             lists |-> {<<1, 2, 3>>, <<3, 4, 5>>, <<2>>}, acts |-> {"Create", "UpdGrp", "UpdNew"}]
+             burn |-> {}, heat |-> {<<1, 900>>, <<3, 1000>>}, flux |-> {},
+             lists |-> {<<1, 2, 3>>, <<3, 4, 5>>}, deeper |-> 2, acts |-> {"Create", "UpdGrp", "UpdNew"}]
 
 McScenarios == {"bu", "temp", "unrep", "ctl", "all", "two", "iso", "exist"}
 McScnOf(s) == CASE s = "bu" -> ScnBu [] s = "temp" -> ScnTemp [] s = "unrep" -> ScnUnrep [] s = "ctl" -> ScnCtl [] s = "all" -> ScnAll [] s = "two" -> ScnTwo [] s = "iso" -> ScnIso [] s = "exist" -> ScnExist
 
-Bound == TLCGet("level") <= MaxLevel
+Bound == TLCGet("level") <= MaxLevel + S.deeper        \* the workflow scenario needs longer behaviours (and has few actions)
 View  == <<scn, blk, env, enabled, ctl, reps, temps, unrep, grp, genv, ret, colls, err>>
 \* one JSON line per explored edge: the behaviour that ends with it and the observation after it
 Emit  == PrintT(ToJson([scn |-> scn, path |-> hist', obs |-> Obs']))
